@@ -108,3 +108,35 @@ func VerifRetryerCounts(resource string) map[string]uint32 {
 	}
 	return ret
 }
+
+// A timer armed by scheduleNodes / onDisconnected is bound to the Recycler / Retryer object that
+// armed it, not to whatever object the resource's cache holds when it fires. VerifRecyclerOf /
+// VerifRetryerOf return the object cached now, so that a harness can remember which object armed
+// a node's timer and later fire the callback on that very object.
+func VerifRecyclerOf(resource string) *Recycler { return getRecyclerOfResource(resource) }
+
+func VerifRetryerOf(resource string) *Retryer { return getRetryerOfResource(resource) }
+
+// VerifRecycle is the timer callback of this recycler for node.
+func (r *Recycler) VerifRecycle(node string) { r.recycle(node) }
+
+// VerifHasTimer reports whether this recycler has armed (and not yet fired) a timer for node.
+func (r *Recycler) VerifHasTimer(node string) bool {
+	r.mtx.Lock()
+	defer r.mtx.Unlock()
+	_, ok := r.status[node]
+	return ok
+}
+
+// VerifConnected / VerifDisconnected are the two outcomes of this retryer's timer callback.
+func (r *Retryer) VerifConnected(node string, rt uint64) { r.onConnected(node, rt) }
+
+func (r *Retryer) VerifDisconnected(node string) { r.onDisconnected(node) }
+
+// VerifHasTimer reports whether this retryer is probing node.
+func (r *Retryer) VerifHasTimer(node string) bool {
+	r.mtx.Lock()
+	defer r.mtx.Unlock()
+	_, ok := r.counts[node]
+	return ok
+}
